@@ -28,7 +28,7 @@ def _op(o):
         return {"op": "distribute", "src": o["src"] - 1, "col": o["col"], "dst": o["dst"] - 1, "dw": o["dw"], "vol": o["vol"],
                 "md": o["md"], "reuse": o["reuse"], "label": lab, "dir": o["dir"], "lc": o["lc"]}
     if name == "setconfig":
-        return {"op": "setconfig", "maxv": o["maxv"], "autosplit": o["autosplit"]}
+        return {"op": "setconfig", "maxv": o["maxv"], "autosplit": o["autosplit"], "diti": o["diti"]}
     raise RuntimeError(f"unknown model operation {name}")
 
 
